@@ -24,6 +24,7 @@ func init() {
 			"C16.R4 per-iteration limit test in byte-wise producers (shared with C09.R2)",
 			"C16.R5 only the last pipeline stage is bounded",
 			"C16.R6 WMC: decode-side drains are limited readers or table entries behind a no-limit test",
+			"C16.R8 shape: the bounded row loop of the Flate predictor path compares maxLen with the produced length, not with an input-side count",
 			"C16.R7 siblings: every filter value built in pkg/filter stores baseFilter.maxDecodeBytes (not the constant 0)",
 		},
 		Assumptions: []string{"io.LimitedReader / io.CopyN semantics", "decodeLimit returns maxLen when maxLen >= 0 and the configured limit otherwise (C09.R1 checks the plumbing)"},
@@ -111,6 +112,8 @@ func runC16(c *Ctx) {
 	r.MinInst["C16.R5"] = 1
 	r.MinInst["C16.R7"] = 7
 	checkFilterValuesCarryLimit(c)
+	r.MinInst["C16.R8"] = 1
+	checkBoundedLoopCountsOutput(c)
 	checkPipelineBoundLastStage(c)
 	// ---- R2 / R3 in copyDecoded
 	if fn := p.Func("pkg/filter.(baseFilter).copyDecoded"); fn == nil {
@@ -719,5 +722,82 @@ func checkFilterValuesCarryLimitAs(c *Ctx, rule string) {
 	}
 	if n == 0 {
 		r.Bad(rule, "pkg/filter.NewFilter", "anchor", "", "UNRESOLVED-ANCHOR: no composite literal of a filter type found in pkg/filter")
+	}
+}
+
+// ---------------- C16.R8 (round 4 seed C16-H): the bounded loop counts what it produced ----------------
+
+// checkBoundedLoopCountsOutput: "return exactly the first n bytes": the row loop of flate.decodePostProcessRows goes on
+// while fewer than maxLen bytes have been PRODUCED. Every comparison against the maxLen parameter in that function (and
+// in a helper it hands maxLen to) has, on its other side, a value that is not an input-side count (the n of io.ReadFull
+// includes the PNG filter byte of each row, which never reaches the output): with an input-side count the loop stops
+// early and a bounded decode inside the data fails with "unexpected EOF".
+func checkBoundedLoopCountsOutput(c *Ctx) {
+	p, r := c.P, c.R
+	const fid = "pkg/filter.(flate).decodePostProcessRows"
+	fn := p.Func(fid)
+	if fn == nil {
+		r.Bad("C16.R8", fid, "anchor", "", "UNRESOLVED-ANCHOR")
+		return
+	}
+	var maxLen *ssa.Parameter
+	for _, q := range fn.Params {
+		if q.Name() == "maxLen" {
+			maxLen = q
+		}
+	}
+	if maxLen == nil {
+		r.Bad("C16.R8", fid, "anchor", p.Pos(fn.Pos()), "UNRESOLVED-ANCHOR: no maxLen parameter")
+		return
+	}
+	n := 0
+	var scan func(f *ssa.Function, lim ssa.Value, d int)
+	scan = func(f *ssa.Function, lim ssa.Value, d int) {
+		eachInstr(f, func(_ *ssa.BasicBlock, _ int, i ssa.Instruction) {
+			switch x := i.(type) {
+			case *ssa.BinOp:
+				switch x.Op {
+				case token.LSS, token.LEQ, token.GTR, token.GEQ:
+				default:
+					return
+				}
+				var other ssa.Value
+				switch {
+				case x.X == lim:
+					other = x.Y
+				case x.Y == lim:
+					other = x.X
+				default:
+					return
+				}
+				if _, isConst := other.(*ssa.Const); isConst {
+					return // maxLen < 0: the mode test
+				}
+				n++
+				construct := fmt.Sprintf("comparison with maxLen#%d", n)
+				if src := inputSideCount(other, 0); src != "" {
+					r.Bad("C16.R8", FuncID(f), construct, p.Pos(x.Pos()), "the bounded loop compares maxLen with a count of bytes read from the input ("+src+"), which includes the filter byte of every PNG predictor row: the loop stops before maxLen bytes were produced and a bounded decode well inside the data reports an unexpected end")
+				} else {
+					r.OK("C16.R8", FuncID(f), construct, p.Pos(x.Pos()), "compared with "+exprName(other)+", not an input-side count", true)
+				}
+			case *ssa.Call:
+				if d > 1 {
+					return
+				}
+				callee := staticCallee(x)
+				if callee == nil || !isSubject(callee) || len(callee.Blocks) == 0 {
+					return
+				}
+				for k, a := range x.Call.Args {
+					if a == lim && k < len(callee.Params) {
+						scan(callee, callee.Params[k], d+1)
+					}
+				}
+			}
+		})
+	}
+	scan(fn, maxLen, 0)
+	if n == 0 {
+		r.Bad("C16.R8", fid, "comparison with maxLen", p.Pos(fn.Pos()), "UNDECIDED: maxLen is not compared with a produced length in the row loop")
 	}
 }
